@@ -40,6 +40,9 @@ def h_explicit(ctx, prog, mode):
 def explicit_totals(ctx, make, mode, after_run=None):
     """shared with C08/C24: `make()` returns a fresh Prog; checks responses and totals of the built problem"""
     P = make()
+    if ctx.sym and any('linear_solver' in o for o in P.group_opts.values()):
+        from symx import stubs
+        stubs.install_lu()
     # inexact float constants on the path: unit factors, and 1.0/(ref-ref0) of the reverse-mode input scaling
     tol = 1e-9 if (P.uses_units() or any('ref' in f for f in P.features)) else 0
 
